@@ -33,6 +33,8 @@ type Type struct {
 	Len    int
 	Fields []*Field
 	Raw    string // KIface/KFunc/KChan literal text
+	// StructPkg: package in whose source an unnamed struct type is written (accessibility of unexported fields).
+	StructPkg *Package
 }
 
 type Field struct {
